@@ -14,6 +14,7 @@ mod eng_codec;
 mod eng_gsd;
 mod eng_las;
 mod eng_prm;
+mod eng_recover;
 mod eng_ring;
 mod eng_rx;
 
@@ -140,6 +141,7 @@ fn main() {
     match prop.as_str() {
         "C01" => eng_ring::c01(&mut ctx),
         "C02" => eng_ring::c02(&mut ctx),
+        "C06" => eng_recover::c06(&mut ctx),
         "C09" => eng_codec::c09(&mut ctx),
         "C10" => eng_codec::c10(&mut ctx),
         "C16" => eng_rx::c16(&mut ctx),
